@@ -217,6 +217,13 @@ func (w *c18World) step(op string) {
 				w.violation("nav:file-changed", map[string]any{"before": before, "after": after})
 			}
 			w.steps++
+		case op == "edit:=":
+			// edit the line back to the text stored for the entry under the cursor (undoing an earlier edit)
+			if w.m.cur < len(w.m.entries) {
+				w.input = w.m.entries[w.m.cur]
+			}
+			w.m.input = w.input
+			w.steps++
 		case strings.HasPrefix(op, "edit:"):
 			w.input = op[5:]
 			w.m.input = w.input
@@ -314,14 +321,14 @@ func c18GetBounds(r *kit.Run) c18Bounds {
 		maxes:    []int{1, 2, 3},
 		inits:    []string{c18Missing, "", "a", "a\n", "a\nb\n", "a\nb\nc\nd\n", "\n", "a\n\nb\n"},
 		sessions: 3, steps: 4,
-		edits:   []string{"edit:x", "edit:"},
+		edits:   []string{"edit:x", "edit:", "edit:="},
 		submits: []string{"abort", "accept", "accept:", "accept:a", "accept:b", "accept:a b"},
 	}
 	if r.Thorough() {
 		b.maxes = []int{1, 2, 3, 4}
 		b.inits = append(b.inits, "a\nb", "\n\na\n", "a\nb\nc\nd\ne\n")
 		b.steps = 5
-		b.edits = []string{"edit:x", "edit:a", "edit:"}
+		b.edits = []string{"edit:x", "edit:a", "edit:", "edit:="}
 	}
 	return b
 }
@@ -378,6 +385,35 @@ func TestVerif_C18_sessions(t *testing.T) {
 				return
 			}
 			c18Chain(r, b, path, max, init)
+		}
+	}
+	os.Remove(path)
+}
+
+// ---------------------------------------------------------------- layer: deep navigation inside ONE session
+// Navigation never touches the file, so the reachable states of one session (cursor, per-entry edits, input) are
+// few: BFS with state deduplication up to 9 (quick) / 12 (thorough) steps, far beyond the chain layer's step bound.
+func TestVerif_C18_navigation(t *testing.T) {
+	r := kit.Start("C18", "navigation")
+	if r == nil {
+		t.Skip()
+	}
+	defer r.Finish()
+	path := "c18-nav-history"
+	b := c18GetBounds(r)
+	b.sessions, b.steps = 1, r.Pick(9, 12)
+	b.submits = []string{"abort", "accept"}
+	unit := 0
+	for _, init := range []string{"a", "a\nb\n", "a\nb\nc\n", "a\n\nb\n"} {
+		for _, max := range []int{2, 3} {
+			unit++
+			if !r.Mine(unit) {
+				continue
+			}
+			if r.ExpiredNow() {
+				return
+			}
+			c18Session(r, b, path, max, c18Start{init, nil}, 1)
 		}
 	}
 	os.Remove(path)
